@@ -429,6 +429,10 @@ def key_chain(ctx, rep, rule):
         elif len(ups) != 3 and all(a[0] == "arg" for a in args):
             rep.violation(rule, "DigestAuth::localize|H(key|engine|key)", "the localisation hash is fed %s (RFC 3414 A.2: key, engine id, key)" % [flow.fmt(a) for a in args],
                           b.loc(), obligation=True)
+        elif any(a[0] == "call" and ((a[1] or "").endswith("::index") or (a[1] or "").split("::")[-1] in ("get", "split_at", "first_chunk", "take")) for a in args) or \
+                any(a[0] == "f" and a[1][0] == "call" and (a[1][1] or "").split("::")[-1] in ("split_at",) for a in args):
+            rep.violation(rule, "DigestAuth::localize|H(key|engine|key)", "the localisation hash is fed a part of an argument only (%s): RFC 3414 A.2 hashes the "
+                          "whole key and the whole engine id" % [flow.fmt(a)[:60] for a in args], b.loc(), obligation=True)
         else:
             rep.inconclusive(rule, "DigestAuth::localize|H(key|engine|key)", "shape not recognised: %s" % [flow.fmt(a) for a in args], b.loc())
     b = _body(ctx, rep, rule, pre + "password_to_master")
